@@ -69,6 +69,26 @@ def analyse(W, name, f, ctx, desc, path):
                 numeric = isinstance(v, Num) or (isinstance(v, Const) and isinstance(v.v, (int, float)) and not isinstance(v.v, bool)) or isinstance(v, Opt)
                 if numeric and not (isinstance(v, Num) and v.is_int and not any(c in re.sub(r"\{[^{}]*(?:\{[^{}]*\}[^{}]*)*\}", "", p.spec or "") for c in "eEgG%")):
                     viol("raw-number", f"a numeric value is interpolated into the statement without number(): {short(v)} (format spec {p.spec!r})")
+        # --- free text inside the statement: no line break may survive (one block = one line); Fmt arguments are the comment texts
+        def free_texts(v):
+            out = []
+            if isinstance(v, Str):
+                for q in v.parts:
+                    if isinstance(q, Text):
+                        out.append(q)
+                    elif isinstance(q, Fmt):
+                        for a_ in q.args:
+                            out += free_texts(a_)
+            elif isinstance(v, Unk) and v.typ == "str":
+                out.append(Text(v.tag))
+            return out
+        for p in parts:
+            if isinstance(p, Fmt):
+                for a_ in p.args:
+                    for t_ in free_texts(a_):
+                        if (t_.name.startswith(("arg.", "kw[")) or "(arg." in t_.name or "(kw[" in t_.name) and not ({"\n", "\r"} <= set(t_.removed)):
+                            viol(f"text-line-break:{t_.name}", f"free text {t_.name} reaches the line with line breaks not provably removed "
+                                 f"(removed: {sorted(t_.removed)!r}): the statement would be delivered as more than one line")
         # --- comment: at most one, last before the strip marker
         cm = [i for i, p in enumerate(parts) if isinstance(p, Fmt)]
         if len(cm) > 1:
